@@ -40,4 +40,17 @@ def showOptInt : Option Int → String
 def tokens (line : String) : List String :=
   (line.splitOn " ").filter (· ≠ "")
 
+/-- coins token `[denom=amt,denom=amt]` (denoms percent-escaped) -/
+def parseCoins (s : String) : Option (List (String × Int)) :=
+  if !s.startsWith "[" || !s.endsWith "]" then none else
+  let inner := String.ofList ((s.toList.drop 1).dropLast)
+  if inner = "" then some [] else
+  (inner.splitOn ",").foldr (fun item acc =>
+    match acc, item.splitOn "=" with
+    | some l, [d, a] => (a.toInt?).map (fun v => (unesc d, v) :: l)
+    | _, _ => none) (some [])
+
+def showCoins (l : List (String × Int)) : String :=
+  "[" ++ ",".intercalate (l.map fun kv => esc kv.1 ++ "=" ++ toString kv.2) ++ "]"
+
 end C4E.Proto
